@@ -322,7 +322,9 @@ def io_faults(chk):
         big = b''.join(b'int v%d = %d;\n' % (i, i) for i in range(4000))
         open(src, 'wb').write(big)
         ref = subprocess.run([exe, src], stdout=subprocess.PIPE, stderr=subprocess.PIPE, timeout=60)
-        assert ref.returncode == 0
+        if ref.returncode != 0:
+            from ..runner import SubjectFailure
+            raise SubjectFailure('io/baseline-rejected', 'a unit of 4000 int definitions is not compiled (status %s): %s' % (ref.returncode, ref.stderr[:300]), files={'input.c': big}, cmd='$CPROC_QBE input.c > /dev/null')
 
         def run(args, **kw):
             try:
